@@ -162,6 +162,56 @@ fn build(contig: Vec<u8>, k: u8, density: Density, seed: u64, force_last: bool, 
     SegCase { contig, k, splitters: set, with_size }
 }
 
+
+/// libFuzzer leg: [k][flags][selector length][selector bits...][contig symbols...]
+/// window i of the contig is a splitter when bit i (mod selector size) is set.
+pub fn from_fuzz(data: &[u8]) -> SegCase {
+    use crate::fuzzing::{sym, Cur};
+    let mut c = Cur::new(data);
+    let k = 1 + c.u8() % 32;
+    let flags = c.u8();
+    let with_size = flags & 1 == 1;
+    let mode = (flags >> 1) & 3;
+    let sl = (c.u8() % 17) as usize;
+    let sel: Vec<u8> = c.take(sl).to_vec();
+    let foreign = (flags >> 3) & 1;
+    let fseed = c.u8() as u64;
+    let contig: Vec<u8> = c.rest().iter().map(|&b| sym(b)).collect();
+    let wins = naive::windows(&contig, k as usize);
+    let mut set: Vec<u64> = Vec::new();
+    for (i, (_, w)) in wins.iter().enumerate() {
+        let pick = match mode {
+            1 => true,
+            2 => mix(fseed, naive::canonical(w)) <= u64::MAX / 16,
+            _ => !sel.is_empty() && (sel[(i / 8) % sel.len()] >> (i % 8)) & 1 == 1,
+        };
+        if pick || (mode == 3 && i + 1 == wins.len()) {
+            set.push(naive::canonical(w));
+        }
+    }
+    if foreign == 1 {
+        let shift = 64 - 2 * k as u32;
+        set.push((mix(fseed, 77) >> shift) << shift);
+    }
+    set.sort_unstable();
+    set.dedup();
+    SegCase { contig, k, splitters: set, with_size }
+}
+
+pub fn fuzz_seeds() -> Vec<Vec<u8>> {
+    let mut r = SplitMix::new(0xC10);
+    let body: Vec<u8> = (0..400).map(|_| (r.next() & 0x7f) as u8).collect();
+    let mut out = Vec::new();
+    for (k, flags, sel) in [(11u8, 1u8, vec![0x01u8, 0, 0, 0x10]), (3, 3, vec![]), (31, 7, vec![0x80, 0, 0, 0, 0, 0, 1]), (0, 0, vec![0xff])] {
+        let mut v = vec![k, flags, sel.len() as u8];
+        v.extend_from_slice(&sel);
+        v.push(9);
+        v.extend_from_slice(&body);
+        out.push(v);
+    }
+    out
+}
+
 fn contig_strategy() -> impl Strategy<Value = Vec<u8>> {
     let acgt = prop::collection::vec(0u8..4, 0..600);
     let long = (any::<u64>(), 600usize..3000).prop_map(|(s, n)| {
@@ -212,6 +262,9 @@ pub fn run(ctx: &Ctx, stats: &mut Stats) {
     run_exhaustive(ctx, stats, "exh-small", items, &check);
     let n = ctx.tier.pick(2_000_000, 30_000_000);
     run_prop(ctx, stats, "random", n, strat(), &check);
+    if ctx.tier == Tier::Thorough || std::env::var("VERIF_FUZZ").is_ok() {
+        crate::fuzzing::run_stage(ctx, stats, "seg", ctx.tier.pick(400_000, 8_000_000));
+    }
 }
 
 pub fn replay(_ctx: &Ctx, _stage: &str, case: &Value) -> Report {
